@@ -107,9 +107,10 @@ def eye_series(n, D, ctx):
     return [I] + [Z] * (D - 1)
 
 
-def build_input(ctx, A0s, D, shape, name='A', sym=False):
+def build_input(ctx, A0s, D, shape, name='A', sym=False, cplx=False):
     """(D,P)+shape coefficient array with given zeroth coefficients per direction"""
     P = len(A0s)
+    mkvar = ctx.cvar if cplx else ctx.var
     X = np.empty((D, P) + shape, dtype=object)
     for p in range(P):
         X[0, p] = A0s[p]
@@ -118,7 +119,7 @@ def build_input(ctx, A0s, D, shape, name='A', sym=False):
                 if sym and idx[0] > idx[1]:
                     X[(d, p) + idx] = X[(d, p) + (idx[1], idx[0])]
                 else:
-                    X[(d, p) + idx] = ctx.var('%s%d_%d%s' % (name, d, p, list(idx)))
+                    X[(d, p) + idx] = mkvar('%s%d_%d%s' % (name, d, p, list(idx)))
     return X
 
 
@@ -439,8 +440,9 @@ def h_svd(ctx, D, P):
             ctx.fact(sd[0, p, 0] > sd[0, p, 1] > 0, 's_0 descending positive')
 
 
-def h_eig(ctx, n, D, P):
-    """general eigendecomposition, D <= 2, real distinct eigenvalues"""
+def h_eig(ctx, n, D, P, cplx1=False):
+    """general eigendecomposition, D <= 2, real distinct eigenvalues; cplx1: the first-order
+    coefficient is complex while A_0 is real"""
     algopy = symx.load_algopy()
     A0s = []
     for p in range(P):
@@ -461,8 +463,10 @@ def h_eig(ctx, n, D, P):
         if ctx.mode == 'sym':
             stubs.register('eig', A0, (np.array(lam, dtype=object), Q0))
         A0s.append(A0)
-    X = build_input(ctx, A0s, D, (n, n))
-    A = mk_utpm(ctx, algopy, X)
+    X = build_input(ctx, A0s, D, (n, n), cplx=cplx1)
+    if cplx1 and ctx.mode == 'float':
+        X = np.array(X.tolist(), dtype=complex)
+    A = mk_utpm(ctx, algopy, X, complex) if (cplx1 and ctx.mode == 'sym') else mk_utpm(ctx, algopy, X)
     l, Q = algopy.eig(A)
     ld, Qd = plain(l.data), plain(Q.data)
     for p in range(P):
@@ -522,4 +526,5 @@ def units(tier, seed):
         add('svd/2x2/D2,P2', 'h_svd', o={'unit_timeout': 1500, 'crosscheck': False, 'path_budget': 600}, D=2, P=2)
     add('eig/2x2/D2,P1', 'h_eig', o={'validate_values': False}, n=2, D=2, P=1)
     add('eig/2x2/D2,P2', 'h_eig', o={'validate_values': False}, n=2, D=2, P=2)
+    add('eig/2x2 real A0, complex A1/D2,P1', 'h_eig', o={'validate_values': False}, n=2, D=2, P=1, cplx1=True)
     return out
